@@ -16,7 +16,7 @@ import (
 // XDBG is a debugging aid, not a check: it runs the script in $VF_DBG
 // (lines: svc <name> | dial [k] | send "<go string>" | udp "<go string>" [k] |
 // q | close | adv <duration> | ev) and prints transcripts and events to stderr.
-func init() { register("XDBG", driver{run: runDbg, needsStorage: true}) }
+func init() { register("XDBG", driver{run: runDbg, needsStorage: true, pre: c01Pre}) }
 
 func runDbg(c *core.Ctx) {
 	f, err := os.Open(os.Getenv("VF_DBG"))
